@@ -172,10 +172,14 @@ class Batch:
         eff = [c if cfg_override is None else dict(c, cfg=dict(c['cfg'], **cfg_override)) for c in cases]
         mres = self.ctx.model.run_many([mapcase.w_case('mat', c) for c in eff])
         sres = self.ctx.model.run_many([mapcase.w_case('spec', c) for c in eff]) if want_spec else [None] * len(cases)
+        # inside the domain of the end-to-end theorem (Props/C01.v engine_document_is_generation_rules_document; decided by the extracted
+        # predicate Model/Fragment.v theorem_applies) the Engine model and the Spec are PROVED equal on completed runs
+        ares = self.ctx.model.run_many([['applies', mapcase.w_cfg(c['cfg']), mapcase.w_doc(c)] for c in eff]) if want_spec else [None] * len(cases)
         out = []
-        for c, i, m, s in zip(eff, ires, mres, sres):
+        for c, i, m, s, a in zip(eff, ires, mres, sres, ares):
+            dom = bool(a) and a[0] == 'ok' and a[1] == 'true' and all(x.get('kind', 'csv') == 'csv' for x in c['sources']) and not c.get('execs') and not c.get('file_path_option')
             out.append({'case': c, 'impl': impl_outcome(i), 'model': model_outcome(m),
-                        'spec': model_outcome(s) if s is not None else None})
+                        'spec': model_outcome(s) if s is not None else None, 'in_domain': dom})
         return out
 
 
@@ -189,6 +193,13 @@ def judge(res, rec, known_ids, prop_triggers=None):
     case, I, M, S = rec['case'], rec['impl'], rec['model'], rec['spec']
     trig = triggers(case) if prop_triggers is None else prop_triggers(case)
     res.evaluations += 1
+    if rec.get('in_domain'):
+        res.count('theorem-domain')
+        if M[0] == 'ok' and S is not None and S[0] == 'ok' and not same(M, S):
+            res.disagreements.append({'what': 'inside the theorem domain the extracted Engine model and the extracted Spec differ (the theorem says they cannot)', 'replay': case})
+        if I[0] == 'ok':
+            res.count('theorem-domain:completed-runs')
+            known_ids = set()         # no deviation of a completed run may be attributed to a recorded finding here
     agree_model = (M[0] == 'unmodelled') or same(I, M)
     agree_spec = S is None or S[0] == 'unmodelled' or same(I, S)
     if M[0] == 'unmodelled':
